@@ -559,7 +559,7 @@ func TestC17(t *testing.T) {
 	// (E2) the offending byte swept over the offsets where the command's
 	// windows change (file: skip loop at 12288 + k*16384 and 20480 + k*16384;
 	// pipe: buffer reset after 16 KiB).
-	radius, step := 20, 1
+	radius, step := 14, 1
 	bases := []int{12288, 16384, 20480, 28672, 32768, 36864, 49152, 53248}
 	if rec.Thorough() {
 		radius = 90
@@ -669,7 +669,7 @@ func TestC17(t *testing.T) {
 			}
 		}
 	}
-	rec.Exhaustive("yaml: 17 fault kinds x 3 positions x 2 key forms x 2 alphabets x 0/2 preceding documents x LF/CRLF/CR x pipe/file/stdin-file", complete)
+	rec.Exhaustive("yaml: 18 fault kinds x 3 positions x 2 key forms x 2 alphabets x 0/2 preceding documents x LF/CRLF/CR x pipe/file/stdin-file", complete)
 
 	rec.Rapid(t, "yaml", rec.Scale(4000, 50000), func(t *rapid.T) {
 		c := yamlCase{
@@ -779,7 +779,7 @@ func noteYAML(key string, c yamlCase) func(r yamlRef, w want, known string) {
 	return func(r yamlRef, w want, known string) {
 		rec.Class("yaml/mode/" + c.Mode)
 		rec.Class("yaml/fault/" + c.Fault.Kind)
-		if !r.positioned {
+		if !r.positioned || w.Pos < 0 {
 			rec.Class("yaml/err/no-position-from-library")
 			return
 		}
